@@ -774,12 +774,20 @@ func (w *world) checkCrashImage(cp *crashPoint, mode int, outcome []map[int]bool
 	if os.Getenv("VERIF_DEBUG") != "" {
 		fmt.Printf("DBG point k=%d kind=%s step=%d mode=%s sig=%s files=%s\n", cp.k, cp.kind, cp.step, crashModeName[mode], sig, diskListing(fs))
 	}
-	if _, dup := w.crashSeen[sig]; dup {
+	if found, dup := w.crashSeen[sig]; dup {
+		// same disk content and same expectation as an image already examined: same verdict.
+		// (Which image of a pair is examined first depends on background-job timing, so the
+		// recorded outcome is replayed into the per-step summary.)
 		w.r.Probe("crash_images_identical_skipped")
 		w.crashChecked[mode]++
+		if mode != crashTorn {
+			for i, j := range found {
+				outcome[i][j] = true
+			}
+		}
 		return
 	}
-	w.crashSeen[sig] = struct{}{}
+	foundAll := make([]int, 0, len(w.chans))
 	w.crashChecked[mode]++
 	w.r.Probe("crash_images_reopened")
 	where := fmt.Sprintf("crash before file-system call #%d (%s) of step %d, mode %s", cp.k, cp.kind, cp.step, crashModeName[mode])
@@ -835,6 +843,7 @@ func (w *world) checkCrashImage(cp *crashPoint, mode int, outcome []map[int]bool
 			return
 		}
 		matched[i] = c.states[found]
+		foundAll = append(foundAll, found)
 		if mode != crashTorn {
 			outcome[i][found] = true
 		}
@@ -846,6 +855,7 @@ func (w *world) checkCrashImage(cp *crashPoint, mode int, outcome []map[int]bool
 			}
 		}
 	}
+	w.crashSeen[sig] = foundAll
 	if m := w.diffGlobal(eng.db, matched); m != nil {
 		w.fail("crash-global-index", m.sig, fmt.Sprintf("%s: %s", where, m.detail))
 	}
